@@ -463,7 +463,23 @@ class Base(unittest.TestCase):
         do_part(self, ["body"], self.spec["body"])
 
 
+_group_classes = {}
+
+
 def make_test(spec):
+    if spec.get("classGroup") is not None and not spec["expectFail"] and not spec["decoSkip"]:
+        # several tests that are instances of ONE test class (parametrised by hand): what differs between them -
+        # script, layer, level - sits on the instance
+        cls = _group_classes.get(spec["classGroup"])
+        if cls is None:
+            def runTest(self):
+                self._body()
+            cls = _group_classes[spec["classGroup"]] = type("G%d" % spec["classGroup"], (Base,),
+                                                            {"runTest": runTest, "__module__": "wtests"})
+        t = cls()
+        t.spec = spec
+        return t
+
     def runTest(self):
         self._body()
     if spec["expectFail"]:
@@ -534,10 +550,11 @@ def build_suite(node):
     tests = {t["id"]: t for t in WORLD["tests"]}
     if node["t"] == "leaf":
         t = make_doctest(tests[node["id"]]) if tests[node["id"]].get("doctest") else make_test(tests[node["id"]])
+        holder = t if tests[node["id"]].get("classGroup") is not None else t.__class__
         if node.get("lyr") is not None:
-            t.__class__.layer = layer_decl(node)
+            holder.layer = layer_decl(node)
         if node.get("lvl") is not None:
-            t.__class__.level = node["lvl"]
+            holder.level = node["lvl"]
         return t
     s = unittest.TestSuite([build_suite(k) for k in node["kids"]])
     if node.get("lyr") is not None:
